@@ -2098,14 +2098,14 @@ class VM:
         self._arm_regex(re)
 
         def test_fn(*args):
-            string = to_string(args[0]) if args else ""
+            string = to_string(args[0] if args else UNDEFINED)
             try:
                 return re.test(string)
             except RegexTimeoutError:
                 raise TimeLimitError("Regex execution timeout")
 
         def exec_fn(*args):
-            string = to_string(args[0]) if args else ""
+            string = to_string(args[0] if args else UNDEFINED)
             try:
                 return re.exec(string)
             except RegexTimeoutError:
@@ -2696,7 +2696,7 @@ class VM:
 
         def match(*args):
             pattern = args[0] if args else None
-            if pattern is None:
+            if pattern is None or pattern is UNDEFINED:
                 # Match empty string
                 arr = JSArray()
                 arr._elements = [""]
